@@ -44,7 +44,7 @@ pub fn generate(ctx: &mut Ctx) {
         }
     }
     // full product
-    let uis: &[Option<&str>] = &[None, Some(""), Some("u"), Some("u:p"), Some(":"), Some("%41%3A"), Some("\u{e9}:\u{e9}"), Some("a:b:c")];
+    let uis: &[Option<&str>] = &[None, Some(""), Some("u"), Some("u:p"), Some(":"), Some("%41%3A"), Some("\u{e9}:\u{e9}"), Some("a:b:c"), Some("user:8080"), Some("user:1234567"), Some(":99999"), Some("u:"), Some("1:2"), Some("u:80:x"), Some("u%40"), Some("%40"), Some("u:0000000000443")];
     let mut hosts: Vec<String> = vec!["".into(), "h".into(), "example.org".into(), "1.2.3.4".into(), "255.255.255.255".into(), "999.1.1.1".into(), "\u{e9}.org".into(), "%C3%A9".into(), "%FF".into(), "h!$&'()*+,;=".into()];
     for inner in gen::ipv6_shapes() {
         hosts.push(format!("[{}]", inner));
